@@ -404,18 +404,20 @@ class C19(Prop):
         rng = ctx.rng
         quick = ctx.tier == "quick"
         out = list(self.boundary_cases(rng))
+        import os
+        scale = float(os.environ.get("VERIF_C19_SCALE", "1"))     # development aid (mutation campaigns); 1 in normal runs
 
         heavy = []
 
         def add(name, ops, sticky=1):
             (heavy if len(ops) > 5000 or sum(len(o) for o in ops) > 400000 else out).append({"name": name, "ops": ops, "sticky": sticky})
-        nkh = 1500 if quick else 12000
+        nkh = int((1200 if quick else 12000) * scale)
         for c in range(nkh):
             add("kh%d" % c, self.gen_keyhash(rng, rng.choice([10, 40, 150, 400])))
         # growth of the default table: 128 -> 1024 (385 keys) -> 8192 (3073 keys); tiny tables with many small keys
-        for c in range(16 if quick else 100):
+        for c in range(int((16 if quick else 100) * scale) or 1):
             add("kh-default%d" % c, self.gen_keyhash(rng, 9000 if c == 0 else rng.choice([1200, 2500]), default=True, small_keys=(c % 2 == 0)))
-        for c in range(16 if quick else 100):
+        for c in range(int((16 if quick else 100) * scale) or 1):
             add("kh-small%d" % c, self.gen_keyhash(rng, 3000, small_keys=True))
         # pile-up histories: default table 128 -> 1024 -> 8192 (> 3072 keys); tiny table through five growths
         for c in range(2 if quick else 10):
@@ -424,7 +426,7 @@ class C19(Prop):
             add("kh-long0", self.gen_keyhash(rng, 100000, default=True, pile=True))
             add("kh-long1", self.gen_keyhash(rng, 100000, pile=True))
             add("kh-long2", self.gen_keyhash(rng, 100000, small_keys=True))
-        n = 1000 if quick else 8000
+        n = int((800 if quick else 8000) * scale)
         big = 600 if quick else 3000
         for c in range(n):
             add("heap%d" % c, self.gen_heap(rng, rng.choice([5, 15, 40]), big))
@@ -442,6 +444,7 @@ class C19(Prop):
         # the engine runs cases in batches of 400 per process with a per-batch time limit: spread the long histories
         for i, h in enumerate(heavy):
             out.insert(min(len(out), (i + 1) * 397), h)
+        ctx.stats["input_distribution"] = self.input_distribution(out)
         return out
 
     # ------------------------------------------------------------------ comparison
@@ -694,28 +697,24 @@ class C19(Prop):
                 if any(a > b for a, b in zip(seq, seq[1:])): return fail(i, "data not ordered by the returned permutation")
         return None
 
-    def extra_evidence(self, ctx):
-        # measured input distribution of this run's generated cases (regenerated with the same seed)
-        import random, collections
-        rng_state = ctx.rng.getstate()
-        try:
-            ctx.rng = random.Random(ctx.seed * 7919 + 13)       # distribution sample; does not disturb anything (run is over)
-            cs = self.cases(ctx) if ctx.tier == "quick" else []
-        finally:
-            ctx.rng.setstate(rng_state) if False else None
+    def input_distribution(self, cs):
+        import collections
         opcount = collections.Counter()
         keylen = collections.Counter()
         maxops = 0
         for c in cs:
             maxops = max(maxops, len(c["ops"]))
             for op in c["ops"]:
-                name, kv = kv_of(op)
+                name, _, rest = op.partition(" ")
                 opcount[name] += 1
                 if name in ("store", "lookup"):
-                    L = 0 if kv["key"] == "-" else len(kv["key"]) // 2
+                    key = rest.split()[0][4:]
+                    L = 0 if key == "-" else len(key) // 2
                     keylen["0" if L == 0 else "1-8" if L <= 8 else "9-64" if L <= 64 else "65-255" if L <= 255 else "256-300"] += 1
-        return {"input_distribution": {"cases": len(cs), "max_ops_per_case": maxops, "ops": dict(opcount), "key_lengths": dict(keylen),
-                                       "note": "sample regenerated with a derived seed; thorough tier adds 10^5-op histories (kh-long*, heap-long, rb-long, stack-long, qsort-long)"}}
+        return {"cases": len(cs), "max_ops_per_case": maxops, "ops": dict(opcount), "key_lengths": dict(keylen)}
+
+    def extra_evidence(self, ctx):
+        return {}
 
 
 SPEC = C19()
